@@ -15,7 +15,7 @@ def run(tier, seed, pid="C02"):
     o = vlib.Outcome(pid, tier, seed)
     thorough = tier == "thorough"
     # stage 0: design checks
-    mc = [("QBFTMC_H3q.cfg", 600)] if not thorough else [("QBFTMC_H3r1.cfg", 1500), ("QBFTMC_B4a.cfg", 1500)]
+    mc = [("QBFTMC_H3q.cfg", 600)] if not thorough else [("QBFTMC_H3q.cfg", 900), ("QBFTMC_H3r1.cfg", 1500)]
     for cfg, to in mc:
         r = vlib.tlc(pid, qc.FAMILY, "QBFTMC", cfg, timeout=to)
         vlib.require_mc_ok(r, cfg)
@@ -24,6 +24,13 @@ def run(tier, seed, pid="C02"):
     if not r.violation:
         raise vlib.Infra("design-spec control failed: quorum floor(2n/3) variant not caught: " + r.summary())
     o.selftests.append({"control": "spec with quorum = floor(2n/3) violates Agreement", "rejected_as_required": True})
+    for cfg in (["QBFTMC_sim4.cfg"] if not thorough else ["QBFTMC_sim4.cfg", "QBFTMC_sim7.cfg", "QBFTMC_sim4cmp.cfg"]):
+        vlib.simulate_timeboxed(o, qc.FAMILY, "QBFTMC", cfg, 200 if thorough else 25, seed=seed, workers=8 if thorough else 4)
+    if thorough:
+        for cfg in ["QBFTMC_W4rc.cfg"]:
+            r = vlib.tlc(pid, qc.FAMILY, "QBFTMC", cfg, timeout=1500)
+            vlib.require_mc_ok(r, cfg)
+            o.add_mc(cfg, r)
     # stage 1-3
     gen = []
     for k, (inst, byz) in enumerate([(1, "3"), (0, "0")] if not thorough else [(1, "3"), (0, "0"), (2, "1"), (3, "")]):
